@@ -4,7 +4,8 @@ From Coq Require Import List ZArith Bool Arith Lia.
 From Verif Require Import lib.Wire c03.Int64 c03.Model c03.Spec c03.Witness
      c03.Proofs_Int64 c03.Proofs_Base c03.Proofs_Limiter c03.Proofs_Reach c03.Proofs_Link
      c03.Proofs_OpsMem c03.Proofs_Hist c03.Proofs_Mon c03.Proofs_Link2 c03.Proofs_Transfer c03.Proofs_OpsRepar
-     c03.Proofs_SetPeer c03.Proofs_Hist2 c03.Proofs_Mon2.
+     c03.Proofs_SetPeer c03.Proofs_Hist2 c03.Proofs_Mon2 c03.Proofs_Keys c03.Proofs_Refs c03.Proofs_RefInv c03.Proofs_GC
+     c03.Proofs_Full.
 Import ListNotations.
 Local Open Scope Z_scope.
 
@@ -101,43 +102,63 @@ Proof. exact limiter_history_inv. Qed.
 Print Assumptions c03_limiter_history.
 
 (* ---- history level: refinement to the abstract holders specification ----------------------
-   Proved for every finite history of OpenConnection (any endpoint, incl. the
-   allow-list retry), SetPeer (incl. transferAllowedToStandard with its deferred
-   undo and the re-charge path of e9a9a54, accepted or refused at any step),
-   OpenStream, SetProtocol, SetService, ReserveMemory / ReleaseMemory on
-   connections, streams, nested spans and View scopes, BeginSpan, Done
-   (repeated, on closed owners), and for every configuration with non-negative
-   limits.
-   _partial: the hypothesis [wf_hist2] / [covered_run] (decidable on the trace)
-   is (a) what callers must respect (Spec.caller_ok, Spec.no_overflow), (b) no
-   gc step.
+   Proved for EVERY finite history of the property's operation language:
+   OpenConnection (any endpoint, incl. the allow-list retry), SetPeer (incl.
+   transferAllowedToStandard with its deferred undo and the re-charge path of
+   e9a9a54, accepted or refused at any step), OpenStream, SetProtocol,
+   SetService, ReserveMemory / ReleaseMemory on connections, streams, nested
+   spans and View scopes, BeginSpan, Done (repeated, on closed owners) and scope
+   gc, and for every configuration with non-negative limits.
+   [disciplined c ops] is exactly the property's own quantifier, decidable on the
+   trace: config_wf (limits >= 0), op_shape (View* on scopes that can be viewed,
+   Done on handles - what the wire language can express), and callers_run = None:
+   Spec.caller_ok (release <= reserved on that scope, priorities 0..255, handles
+   that were obtained, fresh ids) and Spec.no_overflow (outstanding memory < 2^63)
+   at every step.
    [run_aT] is the abstract holder table the monitor computes: where Spec.astep
    lists several candidates (a refused SetPeer that had to take the connection
    off the allow-list) it is the one the model realises, which is the one the
-   monitor picks (c03_trace_holds_partial). *)
+   monitor picks (c03_trace_holds).
+   [InvG] = the simulation invariant Inv (scope map vs holder table; I_num is
+   "usage == sum of holders"), the link between the per-connection / per-stream
+   records, distinct keys of the scope map, the reference-count bound RefInv
+   (refCnt of a protocol / peer scope >= number of open holders pointing at it:
+   why gc never deletes a scope somebody is charged to) and the shape AShape of
+   the holder table. *)
 
-(* the simulation invariant (scope map vs holder table, and the per-connection /
-   per-stream records) holds after every such history *)
-Theorem c03_invariant_partial : forall c ops,
-  cfg_ok c -> wf_hist2 c (init_state c) astate0 ops ->
-  InvL c (run c (init_state c) ops) (run_aT c (init_state c) astate0 ops).
-Proof. exact history_inv2. Qed.
-Print Assumptions c03_invariant_partial.
+Theorem c03_invariant : forall c ops, disciplined c ops ->
+  InvG c (run c (init_state c) ops) (run_aT c (init_state c) astate0 ops).
+Proof. exact history_full. Qed.
+Print Assumptions c03_invariant.
+
+(* one step, from any state satisfying the invariant (the induction step of the above) *)
+Theorem c03_step_invariant : forall c st a o,
+  cfg_ok c -> InvG c st a -> wf_opF c st a o -> InvG c (fst (step c st o)) (anextT c st a o).
+Proof. exact step_full. Qed.
+Print Assumptions c03_step_invariant.
+
+(* gc(): a scope that IsUnused (refCnt <= 0, all six counters 0 - Memory counts
+   since fix 4443cff) has no open holder charged to it, so deleting it, and the
+   per-peer sub-scopes of deleted peers / protocols, changes no sum; the abstract
+   holder table is untouched *)
+Theorem c03_gc_preserves : forall c st a,
+  cfg_ok c -> Inv c (scopes st) a -> Link st a -> nd (scopes st) -> RefInv (scopes st) a -> AShape a ->
+  Inv c (scopes (gc st)) a /\ Link (gc st) a /\ nd (scopes (gc st)) /\ RefInv (scopes (gc st)) a.
+Proof. exact gc_inv. Qed.
+Print Assumptions c03_gc_preserves.
 
 (* every scope's six counters equal the sum of what the open holders charged to it hold *)
-Theorem c03_usage_is_sum_of_holders_partial : forall c ops t,
-  cfg_ok c -> wf_hist2 c (init_state c) astate0 ops ->
+Theorem c03_usage_is_sum_of_holders : forall c ops t, disciplined c ops ->
   use_of (scopes (run c (init_state c) ops)) t = usage_A (run_aT c (init_state c) astate0 ops) t.
-Proof. exact usage_is_sum2. Qed.
-Print Assumptions c03_usage_is_sum_of_holders_partial.
+Proof. exact usage_is_sum_full. Qed.
+Print Assumptions c03_usage_is_sum_of_holders.
 
 (* never negative, never above the scope's limit; the limit of a static scope is the configured one *)
-Theorem c03_nonneg_within_limits_partial : forall c ops t sc,
-  cfg_ok c -> wf_hist2 c (init_state c) astate0 ops ->
+Theorem c03_nonneg_within_limits : forall c ops t sc, disciplined c ops ->
   get (scopes (run c (init_state c) ops)) t = Some sc ->
   nonneg (s_use sc) /\ fits (s_lim sc) (s_use sc) /\ (is_handle t = false -> s_lim sc = limit_of c t).
-Proof. exact within_limits2. Qed.
-Print Assumptions c03_nonneg_within_limits_partial.
+Proof. exact within_limits_full. Qed.
+Print Assumptions c03_nonneg_within_limits.
 
 (* an operation that answers an error changes no counter of any scope and no
    holder: a refused reservation is undone in every scope, a refused SetProtocol
@@ -145,14 +166,14 @@ Print Assumptions c03_nonneg_within_limits_partial.
    to the scopes it was charged to before.  [transfers]: the one exception is a
    SetPeer that first has to move the connection to the standard scopes, see
    c03_reparent_refused_consistent *)
-Theorem c03_refusal_is_noop_partial : forall c st a o t,
-  cfg_ok c -> InvL c st a -> wf_op2 c st a o -> transfers c a o = false ->
+Theorem c03_refusal_is_noop : forall c st a o t,
+  cfg_ok c -> InvG c st a -> wf_opF c st a o -> transfers c a o = false ->
   snd (step c st o) <> 0 ->
   match o with ORelease _ _ | ODone _ => False | _ => True end ->
   use_of (scopes (fst (step c st o))) t = use_of (scopes st) t /\
   anextT c st a o = a.
-Proof. exact refusal_is_noop2. Qed.
-Print Assumptions c03_refusal_is_noop_partial.
+Proof. exact refusal_is_noop_full. Qed.
+Print Assumptions c03_refusal_is_noop.
 
 (* a refused SetPeer, in every state - also one that had to take the connection
    off the allow-list (transferAllowedToStandard), refused by system, by
@@ -184,29 +205,26 @@ Proof. exact setpeer_ok_charges. Qed.
 Print Assumptions c03_setpeer_ok_charges.
 
 (* when every holder is closed or holds nothing, every scope reads zero *)
-Theorem c03_release_all_zero_partial : forall c ops t,
-  cfg_ok c -> wf_hist2 c (init_state c) astate0 ops ->
+Theorem c03_release_all_zero : forall c ops t, disciplined c ops ->
   (forall y h, In (y, h) (holders (run_aT c (init_state c) astate0 ops)) -> h_dead h = true \/ h_own h = stat0) ->
   use_of (scopes (run c (init_state c) ops)) t = stat0.
-Proof. exact release_all_zero2. Qed.
-Print Assumptions c03_release_all_zero_partial.
+Proof. exact release_all_zero_full. Qed.
+Print Assumptions c03_release_all_zero.
 
 (* THE monitor that is run on the implementation's traces (its core: answer
-   legality, usage == sum of holders, signs, limits) accepts every trace of the
-   model *)
-Theorem c03_trace_holds_partial : forall c ops,
-  config_wf c = true ->
-  covered_run c astate0 [] (model_trace c (init_state c) ops) = true ->
+   legality, choice among the candidate successors, usage == sum of holders,
+   signs, limits) accepts every trace of the model *)
+Theorem c03_trace_holds : forall c ops, disciplined c ops ->
   mon_run_gen false c astate0 [] 0 (model_trace c (init_state c) ops) = [].
-Proof. exact monitor_accepts2. Qed.
-Print Assumptions c03_trace_holds_partial.
+Proof. exact monitor_accepts_full. Qed.
+Print Assumptions c03_trace_holds.
 
-(* the hypothesis is satisfiable by a history through every covered operation,
-   and by one with a refused allow-list transfer followed by the re-charge *)
-Example covered_nonvacuous :
-  covered_run tour_cfg astate0 [] (model_trace tour_cfg (init_state tour_cfg) (filter (fun o => match o with OGC => false | _ => true end) tour_ops)) = true /\
-  covered_run retry_cfg astate0 [] (model_trace retry_cfg (init_state retry_cfg) retry_ops) = true.
-Proof. vm_compute. split; reflexivity. Qed.
+(* the hypothesis is satisfiable: a history through every operation incl. gc with
+   and without references held, one with a refused allow-list transfer followed
+   by the re-charge, one with a View reservation kept across a gc *)
+Example disciplined_nonvacuous :
+  disciplined tour_cfg tour_ops /\ disciplined retry_cfg retry_ops /\ disciplined gc_cfg gc_ops.
+Proof. unfold disciplined. vm_compute. repeat split; reflexivity. Qed.
 
 (* ---- regression: histories that refuted the full statement before the repairs ----------- *)
 Definition full_statement : Prop :=
